@@ -18,13 +18,13 @@ EXPECTED_TYPES = {'uset': 'LimP4<hashCodePart=1>', 'uset_o': 'Open2N2<hashCodePa
                   'ummap': 'LimP4<hashCodePart=1>', 'ummap_o': 'Open2N2<hashCodePart=1>', 'sumap': 'LimP4<hashCodePart=1>', 'moumap': 'LimP4<hashCodePart=1>',
                   'usetf': 'LimP4<hashCodePart=0>', 'usetf_o': 'Open8', 'umapf': 'LimP4<hashCodePart=0>', 'umapf_o': 'Open8', 'ummapf': 'LimP4<hashCodePart=0>', 'ummapf_o': 'Open8'}
 GROUP_OF = {k: g for g, ks in GROUPS.items() for k in ks}
-GROUP_OF['mmk'] = 2; GROUP_OF['mmko'] = 2; GROUP_OF['pbs'] = 2
+GROUP_OF['mmk'] = 2; GROUP_OF['mmko'] = 2; GROUP_OF['pbs'] = 2; GROUP_OF['umk'] = 2; GROUP_OF['umko'] = 2
 
 
 def group_of(cse):
     w = cse.split(' ')
     kind = w[1] if w[0] in ('we', 'wl', 'ord') else w[0]
-    if w[0] not in ('we', 'wl', 'ord', 'mmk', 'mmko', 'pbs') and w[1] != '0':
+    if w[0] not in ('we', 'wl', 'ord', 'mmk', 'mmko', 'umk', 'umko', 'pbs') and w[1] != '0':
         if kind in ALLOC_SETS2 and int(w[1]) in ALLOC_SETS2[kind]: return 9
         if kind in ('uset', 'umap', 'ummap'): return 7
         if kind in ('mset', 'map'): return 8
@@ -38,6 +38,7 @@ STRINGS = {'smap', 'sumap'}
 MULTI = {'ummap', 'ummap_o', 'mset', 'mmap', 'ummapf', 'ummapf_o'}
 UNIQ_MAP = {'umap', 'umap_o', 'map', 'smap', 'sumap', 'momap', 'moumap', 'umapf', 'umapf_o'}
 NO_NODES = {'ummap', 'ummap_o', 'vec', 'svec', 'ummapf', 'ummapf_o'}
+GEN = ['gen_uset_erase.json', 'gen_umap_erase.json', 'gen_ummap_erase.json', 'gen_sethint.json', 'gen_msethint.json', 'gen_mapfind.json', 'gen_mmapfind.json']
 INTERESTING = {'insh', 'emph', 'tryh', 'ioah', 'xinsh', 'xins', 'merge', 'err', 'erre', 'erra', 'err0', 'err1', 'eri', 'erf',
                'cmp', 'erif', 'ext', 'exti', 'at', 'errv', 'erloop', 'ernx', 'xmut', 'mrgm', 'mrgt', 'tryr', 'findh', 'eqrh', 'insm', 'fill', 'fillv', 'rdump', 'mvca', 'cpca', 'movq', 'ctor', 'emp0', 'rsvu', 'rhs', 'insn', 'insrv', 'insself', 'atv', 'swap', 'mov', 'cpy'}
 
@@ -183,7 +184,7 @@ def gen_script(r, kind, nops, ak=0, ida=1, idb=1, hm=0, prefix=(), size=0):
     return head + ' ; ' + ' ; '.join(ops)
 
 
-def gen_hint_cases(kind, full):
+def gen_hint_cases(kind, full, hm=0):
     """exhaustive: every sorted content over keys {2,4,6} (length <= 3, or 4 when full) x every hint x every key 1..7"""
     out = []
     multi = kind in ('mset', 'mmap')
@@ -203,9 +204,9 @@ def gen_hint_cases(kind, full):
         for h in range(len(cont) + 1):
             for k in range(1, 8):
                 for o in hint_ops:
-                    out.append('%s 0 1 1 0 ; %s%s%s 0 %d %d 99 ; dump 0' % (kind, pre, ' ; ' if pre else '', o, h, k))
+                    out.append('%s 0 1 1 %d ; %s%s%s 0 %d %d 99 ; dump 0' % (kind, hm, pre, ' ; ' if pre else '', o, h, k))
                 # node insertion with hint: the node comes from container 1
-                out.append('%s 0 1 1 0 ; %s%sins 1 %d 98 ; xinsh 1 0 %d %d ; dump 0' % (kind, pre, ' ; ' if pre else '', k, k, h))
+                out.append('%s 0 1 1 %d ; %s%sins 1 %d 98 ; xinsh 1 0 %d %d ; dump 0' % (kind, hm, pre, ' ; ' if pre else '', k, k, h))
     return out
 
 
@@ -320,7 +321,7 @@ def run_exe(ctx, exe, cases, tag):
 
 def measure(ctx, exes, cases):
     """per-dimension counts of what this run really executed (from the case lines and from the momo result lines)"""
-    d = {'cases_per_kind': {}, 'cases_per_kind_and_allocator': {}, 'cases_per_hash_mode(custom-hash unordered kinds)': {}, 'calls_per_operation': {},
+    d = {'cases_per_kind': {}, 'cases_per_kind_and_allocator': {}, 'cases_per_hash_mode(custom-hash unordered kinds)': {}, 'calls_per_operation': {}, 'cases_per_comparator_state(ordered kinds)': {},
          'max_elements_in_one_container_per_kind': {}, 'cases_reaching_100+_elements': 0, 'cases_reaching_500+_elements': 0}
     sizes = {}
     for g in GROUPS:
@@ -333,8 +334,10 @@ def measure(ctx, exes, cases):
         for cse, ln in zip(cs, lines):
             w = cse.split(' '); kind = w[0]
             d['cases_per_kind'][kind] = d['cases_per_kind'].get(kind, 0) + 1
-            if kind in ('pbs', 'mmk', 'mmko'): continue
+            if kind in ('pbs', 'mmk', 'mmko', 'umk', 'umko'): continue
             key = '%s/a%s' % (kind, w[1]); d['cases_per_kind_and_allocator'][key] = d['cases_per_kind_and_allocator'].get(key, 0) + 1
+            if kind in ('set', 'mset', 'map', 'mmap', 'momap'):
+                d['cases_per_comparator_state(ordered kinds)'][('descending' if w[4] == '1' else 'default')] = d['cases_per_comparator_state(ordered kinds)'].get(('descending' if w[4] == '1' else 'default'), 0) + 1
             if kind in ('uset', 'uset_o', 'umap', 'umap_o', 'ummap', 'ummap_o', 'sumap', 'moumap'):
                 d['cases_per_hash_mode(custom-hash unordered kinds)'][w[4]] = d['cases_per_hash_mode(custom-hash unordered kinds)'].get(w[4], 0) + 1
             for seg in cse.split(';')[1:]:
@@ -401,6 +404,7 @@ def three_way(ctx, exes, cases, have_model, label):
             m = (model[i] if i < len(model) else '<missing>') if model is not None else None
             toks = set(s.strip().split(' ')[0] for s in cse.split(';')[1:])
             if cse.startswith('pbs'): ctx.nontrivial.add(cse)
+            if cse.startswith('umk') and ' /  ' not in cse: ctx.nontrivial.add(cse)
             if cse.startswith('mmk') and ' /  ' not in cse and not cse.split(' / ')[0].endswith(cse.split(' ')[1]):
                 ctx.nontrivial.add(cse)
             if toks & INTERESTING and any(t not in ('skip', 'none', '-') for t in a.split(' | ')[0].split(' ')):
@@ -500,13 +504,13 @@ def all_cases(ctx, scale):
     for kind in kinds:
         custom_hash = kind in ('uset', 'uset_o', 'umap', 'umap_o', 'ummap', 'ummap_o', 'sumap', 'moumap')
         for i in range((40 if kind in FAST or kind == 'svec' else 60) * scale):
-            hm = (0, 1, 0, 2, 3)[i % 5] if custom_hash else 0
+            hm = (0, 1, 0, 2, 3)[i % 5] if custom_hash else ((0, 1, 0)[i % 3] if kind in ('set', 'mset', 'map', 'mmap', 'momap') else 0)   # ordered: 1 = stateful comparator in its descending state
             cases.append(gen_script(r, kind, r.range(8, 60), 0, 1, 1, hm))
         if kind in ALLOC_SETS:
             for ak in (ALLOC_SETS[kind] + (ALLOC_SETS2.get(kind, ()) if thorough else ())):
                 for i in range((6 if kind == 'vec' else 16) * scale):
                     ida = r.range(1, 3); idb = ida if r.chance(1, 2) else r.range(1, 3)
-                    cases.append(gen_script(r, kind, r.range(8, 40), ak, ida, idb, 0))
+                    cases.append(gen_script(r, kind, r.range(8, 40), ak, ida, idb, (i % 2) if kind in ('mset', 'map') else 0))
         # long histories: cross the growth / split / merge thresholds of the nested containers several times, shrink, refill
         for big in ((120, 330, 700) if not thorough else (120, 330, 700, 1500, 3000)):
             for rep_ in range(1 if not thorough else 2):
@@ -527,6 +531,7 @@ def all_cases(ctx, scale):
                 cases.append(body + ' ; ' + ' ; '.join(post))
     for kind in ('set', 'mset', 'map', 'mmap'):
         cases += gen_hint_cases(kind, scale > 1)
+        if kind in ('mset', 'map'): cases += gen_hint_cases(kind, False, 1)   # the same with the comparator in its descending state
     # aimed: unordered_multimap == with value-less keys on either side
     for kind in ('ummap', 'ummap_o'):
         for m in (1, 2, 3):
@@ -541,7 +546,7 @@ def all_cases(ctx, scale):
                     pre = ' ; '.join('ins 0 %d %d' % (j, j + 1) for j in range(n)) + (' ; ins 0 %d 77' % k if kind.startswith('ummap') else '')
                     cases.append('%s 0 1 1 %d ; %s ; erre 0 %d ; sz 0 ; dump 0' % (kind, hm, pre, k))
     # aimed: unordered_multimap whose key_eq is coarser than operator== of the key (identity-tagged keys): == must use operator==
-    for i in range(150 * scale):
+    for i in range(300 * scale):
         n = r.below(5)
         a = [(r.below(3), r.below(2), r.below(2)) for _ in range(n)]
         b = list(a); r.shuffle(b)
@@ -554,7 +559,16 @@ def all_cases(ctx, scale):
         ida = {}; a = [(k, ida.setdefault(k, i_), v) for (k, i_, v) in a]
         idb = {}; b = [(k, idb.setdefault(k, i_), v) for (k, i_, v) in b]
         tail = (' / %d %d' % (2, r.below(2))) if r.chance(1, 3) else ''
-        cases.append('%s %d %s / %s%s' % (r.choice(['mmk', 'mmko']), r.below(2), ' '.join('%d.%d.%d' % e for e in a), ' '.join('%d.%d.%d' % e for e in b), tail))
+        cases.append('%s %d %s / %s%s' % (r.choice(['mmk', 'mmko', 'umk', 'umko']), r.below(2), ' '.join('%d.%d.%d' % e for e in a), ' '.join('%d.%d.%d' % e for e in b), tail))
+    # the functor STATE (descending comparator, non-default hash mode / key_eq tag) must survive operator=(init-list), copy/move assignment,
+    # swap and the allocator-extended constructors: observers + order-dependent answers afterwards
+    for kind in ('set', 'mset', 'map', 'mmap', 'momap', 'uset', 'uset_o', 'umap', 'umap_o', 'ummap', 'ummap_o'):
+        hm = 1 if kind in ORDERED else 3
+        probe = 'kfn 0 3 5 ; kfn 1 3 5 ; ins 0 4 70 ; ins 1 4 71 ; find 0 5 ; cnt 0 3 ; dump 0 ; dump 1' + (' ; lb 0 4 ; ub 0 4 ; eri 0 0 ; rdump 0' if kind in ORDERED else '')
+        muts = ['mov 0 1', 'movq 0 1', 'swap', 'swp2', 'mvc 0 1', 'mvca 0 1 1', 'clr 0']
+        if kind not in MOVE_ONLY: muts += ['asl 0 3 1 5 2 1 3', 'asl 0', 'cpy 0 1', 'cpc 0 1', 'cpca 0 1 1']
+        for m in muts:
+            cases.append('%s 0 1 1 %d ; ins 0 1 10 ; ins 0 5 11 ; ins 0 3 12 ; ins 1 2 20 ; ins 1 6 21 ; %s ; %s' % (kind, hm, m, probe))
     # boundary values of every numeric argument: 0, 1, n-1, n, n+1, SIZE_MAX(-1)
     for kind in ('vec', 'svec'):
         for n in (0, 1, 2, 5, 16, 17):
@@ -606,6 +620,7 @@ def run(ctx):
     ctx.assumptions += ['documented deviations are generator constraints: iterators re-acquired after every mutation; find/insert results only read, compared, erased or extracted; unordered range erase only with empty / single / whole-key / whole-container ranges (other ranges are exercised in the iterator-kind stage, where throwing is allowed)',
                         'element and key types are ints / a two-int struct compared by its first field; allocators: std::allocator and one stateful allocator with 4 propagation-trait combinations',
                         'unordered find()/erase(iterator) on a multimap key with several values is addressed by (key,value), since std leaves the choice among equivalent elements unspecified']
+    ctx.regen(GEN)
     ctx.prove()
     exes = build_harnesses(ctx)
     if exes is None:
